@@ -1,5 +1,5 @@
 //! C08: Reader results are a function of the input bytes alone (all chunkings, Interrupted placements).
-//! input encoding: "<script>;<hex bytes>;<schedule>"  script = ops L(line) E(is_eof) S(string token) I(i32 token) C(char)
+//! input encoding: "<script>;<hex bytes>;<schedule>"  script = ops L(line) E(is_eof) S(string token) I(i32 token) C(char) B/U/W/Q (u8/u32/u64/u128 token) H/X (i64/i128 token) A(read_lines)
 //! schedule = comma list of chunk sizes and `i` (one Interrupted error); the rest is delivered in one read.
 use crate::{guarded, Cex, Outcome};
 use rlib_io::Reader;
@@ -76,7 +76,7 @@ fn model(script: &str, data: &[u8]) -> Option<Vec<String>> {
                 }
                 out.push(format!("{}", pos == data.len()));
             }
-            'S' | 'I' | 'C' => {
+            'S' | 'I' | 'C' | 'B' | 'U' | 'W' | 'Q' | 'H' | 'X' => {
                 while pos < data.len() && is_ws(data[pos]) {
                     pos += 1;
                 }
@@ -93,11 +93,29 @@ fn model(script: &str, data: &[u8]) -> Option<Vec<String>> {
                     e += 1;
                 }
                 let tok = String::from_utf8_lossy(&data[pos..e]).to_string();
+                if op != 'S' && (tok.starts_with('+') || tok == "-0" || (tok.len() > 1 && tok.trim_start_matches('-').starts_with('0'))) {
+                    return None;
+                }
                 if op == 'I' {
                     let v: i32 = tok.parse().ok()?;
-                    if tok.starts_with('+') {
-                        return None;
-                    }
+                    out.push(format!("{}", v));
+                } else if op == 'B' {
+                    let v: u8 = tok.parse().ok()?;
+                    out.push(format!("{}", v));
+                } else if op == 'U' {
+                    let v: u32 = tok.parse().ok()?;
+                    out.push(format!("{}", v));
+                } else if op == 'W' {
+                    let v: u64 = tok.parse().ok()?;
+                    out.push(format!("{}", v));
+                } else if op == 'Q' {
+                    let v: u128 = tok.parse().ok()?;
+                    out.push(format!("{}", v));
+                } else if op == 'H' {
+                    let v: i64 = tok.parse().ok()?;
+                    out.push(format!("{}", v));
+                } else if op == 'X' {
+                    let v: i128 = tok.parse().ok()?;
                     out.push(format!("{}", v));
                 } else {
                     out.push(format!("{:?}", tok));
@@ -125,6 +143,12 @@ fn real(script: &str, data: &[u8], sched: &[Option<usize>]) -> Result<Vec<String
                 'E' => out.push(format!("{}", r.is_eof())),
                 'S' => out.push(format!("{:?}", r.read::<String>())),
                 'I' => out.push(format!("{}", r.read::<i32>())),
+                'B' => out.push(format!("{}", r.read::<u8>())),
+                'U' => out.push(format!("{}", r.read::<u32>())),
+                'W' => out.push(format!("{}", r.read::<u64>())),
+                'Q' => out.push(format!("{}", r.read::<u128>())),
+                'H' => out.push(format!("{}", r.read::<i64>())),
+                'X' => out.push(format!("{}", r.read::<i128>())),
                 'C' => out.push(format!("{:?}", r.read::<char>())),
                 _ => {}
             }
@@ -172,7 +196,7 @@ pub fn run(_seed: u64, replay: Option<String>) -> Outcome {
         return Outcome { cex: check(p[0], &unhex(p[1]), &parse_sched(p[2])), cases: 1 };
     }
     let alpha = [b'\n', b'\r', b'7', b' ', b'-'];
-    let scripts = ["LLLLL", "ELLLL", "LELEL", "SESES", "IEIEI", "CCECC", "EEL", "SLL", "ILL", "A", "LA", "SA"];
+    let scripts = ["LLLLL", "ELLLL", "LELEL", "SESES", "IEIEI", "CCECC", "EEL", "SLL", "ILL", "A", "LA", "SA", "UEUEU", "BWL", "WQE", "HXH", "UL", "QQ"];
     let mut cases = 0u64;
     for len in 0..=4usize {
         let total = alpha.len().pow(len as u32);
@@ -228,6 +252,23 @@ pub fn run(_seed: u64, replay: Option<String>) -> Outcome {
         for sched in [vec![], vec![Some(pad + 1), None, Some(1)], vec![Some(pad + 2)], vec![Some(pad + 5), Some(1)]] {
             cases += 1;
             if let Some(c) = check("ILL", &data, &sched) {
+                return Outcome { cex: Some(c), cases };
+            }
+        }
+    }
+    // integers of every width at their extreme values: every two-way split of the stream, one byte per read, an interrupt at the split
+    let ext: &[(&str, &str)] = &[("BUWQHX", "255 4294967295 18446744073709551615 340282366920938463463374607431768211455 -9223372036854775808 -170141183460469231731687303715884105728\n"),
+        ("BUWQHX", "0 0 0 0 9223372036854775807 170141183460469231731687303715884105727"), ("IHXE", "-2147483648\r\n9223372036854775807\t-1 "), ("WUB", "10000000000 65536 7")];
+    for (script, text) in ext {
+        let data = text.as_bytes().to_vec();
+        let mut scheds: Vec<Vec<Option<usize>>> = vec![vec![], vec![Some(1); data.len() + 1]];
+        for cut in 1..data.len() {
+            scheds.push(vec![Some(cut)]);
+            scheds.push(vec![Some(cut), None, None, Some(1)]);
+        }
+        for sched in scheds {
+            cases += 1;
+            if let Some(c) = check(script, &data, &sched) {
                 return Outcome { cex: Some(c), cases };
             }
         }
